@@ -3,6 +3,7 @@ from binascii import b2a_hex, a2b_hex
 
 from pymodbus.exceptions import ModbusIOException
 from pymodbus.utilities import checkLRC, computeLRC
+from pymodbus.compat import byte2int
 from pymodbus.framer import ModbusFramer, FRAME_HEADER, BYTE_ORDER
 
 
@@ -73,7 +74,7 @@ class ModbusAsciiFramer(ModbusFramer):
         if end != -1:
             self._header['len'] = end
             self._header['uid'] = int(self._buffer[1:3], 16)
-            self._header['lrc'] = int(self._buffer[end - 2:end], 16)
+            self._header['lrc'] = byte2int(a2b_hex(self._buffer[end - 2:end])[0])
             data = a2b_hex(self._buffer[start + 1:end - 2])
             return checkLRC(data, self._header['lrc'])
         return False
